@@ -1,6 +1,6 @@
 (* C01 -- task timing: soundness of the task encoders against spec_C01. *)
 From Coq Require Import ZArith List Bool Lia ZifyBool String.
-From PS.model Require Import Smt Enc Prog.
+From PS.model Require Import Smt Enc Ind Prog.
 From PS.spec Require Import Spec.
 From PS.proofs Require Import Base.
 Import ListNotations.
